@@ -28,11 +28,18 @@ structure FStOK (T : List Path) (dest : Str) (st : LState) : Prop where
   tmp : st.tmp = [] ∨ st.tmp = join dest tmpName
   staged : ∀ x ∈ st.staged, x.2.typ = .reg
 
+/-- the part of the state's invariant that does not speak about the frame -/
+structure FSt0 (dest : Str) (st : LState) : Prop where
+  tmp : st.tmp = [] ∨ st.tmp = join dest tmpName
+  staged : ∀ x ∈ st.staged, x.2.typ = .reg
+
+theorem FStOK.to0 {T : List Path} {dest : Str} {st : LState} (h : FStOK T dest st) : FSt0 dest st := ⟨h.tmp, h.staged⟩
+
 theorem farg_of_mem {T : List Path} {s : Str} (hs : CleanAbs s) (h : pathComps s ∈ T) : FArg T s :=
   ⟨cov_self h, hs.no_dotdot⟩
 
-theorem fr_layerFinish (dp : Path) (T : List Path) (fs0 : FS) (dest : Str) (st : LState) (out : Out) (hd : CleanAbs dest)
-    (htmp : pathComps (join dest tmpName) ∈ T) (hst : FStOK T dest st) :
+theorem fr_layerFinish0 (dp : Path) (T : List Path) (fs0 : FS) (dest : Str) (st : LState) (out : Out) (hd : CleanAbs dest)
+    (htmp : pathComps (join dest tmpName) ∈ T) (hst : FSt0 dest st) :
     FrSem dp T fs0 (fun _ => True) (layerFinish dest st out) := by
   unfold layerFinish
   refine bindF dp T fs0 (Q := fun _ => True) _ _ ?_ (fun _ _ => frSem_pure dp T fs0 _ _ trivial)
@@ -44,12 +51,17 @@ theorem fr_layerFinish (dp : Path) (T : List Path) (fs0 : FS) (dest : Str) (st :
       exact fr_info dp T fs0 (.removeAll _) (farg_of_mem (join_cleanAbs dest _ hd) htmp)
   · exact frSem_pure dp T fs0 _ _ trivial
 
-theorem fr_stage (dp : Path) (T : List Path) (fs0 : FS) (dest : Str) (o : Opts) (e : Entry) (st : LState)
+theorem fr_layerFinish (dp : Path) (T : List Path) (fs0 : FS) (dest : Str) (st : LState) (out : Out) (hd : CleanAbs dest)
+    (htmp : pathComps (join dest tmpName) ∈ T) (hst : FStOK T dest st) :
+    FrSem dp T fs0 (fun _ => True) (layerFinish dest st out) :=
+  fr_layerFinish0 dp T fs0 dest st out hd htmp hst.to0
+
+theorem fr_stage0 (dp : Path) (T : List Path) (fs0 : FS) (dest : Str) (o : Opts) (e : Entry) (st : LState)
     (hd : CleanAbs dest) (htmp : pathComps (join dest tmpName) ∈ T)
     (hstg : (hasPrefix (clean e.name) whMetaPrefix && hasPrefix (clean e.name) whLinkDir && e.typ == .reg) = true →
       pathComps (join (join dest tmpName) (base (clean e.name))) ∈ T)
-    (hst : FStOK T dest st) :
-    FrSem dp T fs0 (fun r => ∀ st', r = .ok st' → FStOK T dest st') (stageP dest o e st (clean e.name)) := by
+    (hst : FSt0 dest st) :
+    FrSem dp T fs0 (fun r => ∀ st', r = .ok st' → FSt0 dest st' ∧ st'.dirs = st.dirs) (stageP dest o e st (clean e.name)) := by
   unfold stageP
   split
   · rename_i hcond
@@ -91,7 +103,7 @@ theorem fr_stage (dp : Path) (T : List Path) (fs0 : FS) (dest : Str) (o : Opts) 
           intro st' h
           injection h with h
           subst h
-          refine ⟨hst.dirs, Or.inr rfl, ?_⟩
+          refine ⟨⟨Or.inr rfl, ?_⟩, rfl⟩
           intro y hy
           rcases List.mem_cons.mp hy with rfl | hy
           · exact htyp
@@ -101,9 +113,18 @@ theorem fr_stage (dp : Path) (T : List Path) (fs0 : FS) (dest : Str) (o : Opts) 
     intro st' h
     injection h with h
     subst h
-    exact hst
+    exact ⟨hst, rfl⟩
 
-theorem fr_resolveSrc (dp : Path) (T : List Path) (fs0 : FS) (dest : Str) (st : LState) (e : Entry) (hst : FStOK T dest st) :
+theorem fr_stage (dp : Path) (T : List Path) (fs0 : FS) (dest : Str) (o : Opts) (e : Entry) (st : LState)
+    (hd : CleanAbs dest) (htmp : pathComps (join dest tmpName) ∈ T)
+    (hstg : (hasPrefix (clean e.name) whMetaPrefix && hasPrefix (clean e.name) whLinkDir && e.typ == .reg) = true →
+      pathComps (join (join dest tmpName) (base (clean e.name))) ∈ T)
+    (hst : FStOK T dest st) :
+    FrSem dp T fs0 (fun r => ∀ st', r = .ok st' → FStOK T dest st') (stageP dest o e st (clean e.name)) :=
+  FrSem.mono dp T fs0 (fun _ h st' hr => ⟨by rw [(h st' hr).2]; exact hst.dirs, (h st' hr).1.tmp, (h st' hr).1.staged⟩) _
+    (fr_stage0 dp T fs0 dest o e st hd htmp hstg hst.to0)
+
+theorem fr_resolveSrc0 (dp : Path) (T : List Path) (fs0 : FS) (dest : Str) (st : LState) (e : Entry) (hst : FSt0 dest st) :
     FrSem dp T fs0 (fun r => ∀ src, r = .ok src → src.typ = .reg ∨ src = e) (resolveSrcP st e) := by
   unfold resolveSrcP
   split
@@ -124,6 +145,10 @@ theorem fr_resolveSrc (dp : Path) (T : List Path) (fs0 : FS) (dest : Str) (st : 
     intro src h
     injection h with h
     exact Or.inr h.symm
+
+theorem fr_resolveSrc (dp : Path) (T : List Path) (fs0 : FS) (dest : Str) (st : LState) (e : Entry) (hst : FStOK T dest st) :
+    FrSem dp T fs0 (fun r => ∀ src, r = .ok src → src.typ = .reg ∨ src = e) (resolveSrcP st e) :=
+  fr_resolveSrc0 dp T fs0 dest st e hst.to0
 
 theorem fr_opaqueWalk (dp : Path) (T : List Path) (fs0 : FS) (dirS : Str) (unpacked : List Str)
     (hdr : pathComps dirS ∈ T) :
